@@ -105,7 +105,7 @@ BAD = st.one_of(st.none(), st.none(), st.none(), st.none(), st.sampled_from(BAD_
 
 @st.composite
 def create_spec(draw):
-    how = draw(st.sampled_from(["from_shape", "from_shape", "from_data"]))
+    how = draw(st.sampled_from(["from_shape", "from_shape", "from_shape", "from_data"]))
     spec = {
         "how": how,
         "nf": draw(st.integers(1, 4)),
@@ -115,7 +115,7 @@ def create_spec(draw):
         "name": draw(st.sampled_from([None, "peaks"])),
     }
     if how == "from_shape":
-        nd = draw(st.integers(1, 3))
+        nd = draw(st.sampled_from([1, 2, 2, 3, 3]))
         spec["shape"] = [draw(st.integers(1, 4)) for _ in range(nd)]
     else:
         spec["rows"] = draw(st.lists(nrows, min_size=1, max_size=5))
@@ -138,6 +138,11 @@ STEP = st.one_of(
     ),
     _fd("get_many", slot=slots, exprs=EXPRS3, via=st.sampled_from(["slice", "slice", "get_data"]), drop=st.integers(0, 2), bare=st.booleans()),
     _fd("get_many", slot=slots, exprs=EXPRS3, via=st.sampled_from(["slice", "slice", "get_data"]), drop=st.integers(0, 2), bare=st.booleans()),
+    _fd(
+        "set_many", slot=slots, exprs=EXPRS3, multi=small, seed=seeds, via=st.sampled_from(["setitem", "set_data"]),
+        bad=BAD, bad_pos=small,
+    ),
+    _fd("get_many", slot=slots, exprs=EXPRS3, via=st.sampled_from(["slice", "slice", "get_data"]), drop=st.integers(0, 2), bare=st.booleans()),
     _fd("assign_vector", slot=slots, src=slots, exprs=EXPRS3, multi=small),
     _fd("field_op", slot=slots, f=small, operator=st.sampled_from(["+", "-", "*", "/"]), scalar=st.integers(0, len(SCALARS) - 1)),
     _fd("field_callable", slot=slots, f=small, fn=st.sampled_from(sorted(FUNCS))),
@@ -152,10 +157,11 @@ STEP = st.one_of(
 )
 
 
-def histories(max_steps):
-    return st.fixed_dictionaries(
-        {"kind": st.just("history"), "init": create_spec(), "steps": st.lists(STEP, min_size=1, max_size=max_steps)}
-    )
+@st.composite
+def histories(draw, max_steps):
+    # explicit length: st.lists alone is biased towards very short lists (a third had one step)
+    n = draw(st.integers(1, max_steps))
+    return {"kind": "history", "init": draw(create_spec()), "steps": draw(st.lists(STEP, min_size=n, max_size=n))}
 
 
 # ------------------------------------------------------------------------------------------------
@@ -329,6 +335,11 @@ class History:
             if id(md) in seen_meta:
                 self.viol("%s: vectors #%d and #%d share one metadata dict object" % (when, seen_meta[id(md)], s))
             seen_meta[id(md)] = s
+        for s, (v, m) in enumerate(self.live):
+            p = vec_problem(v, m)
+            if p:
+                self.viol("%s: vector #%d: %s" % (when, s, p))
+        for s, (v, m) in enumerate(self.live):
             for idx in m.order():
                 if m.cells[idx] is None:
                     continue
@@ -336,10 +347,6 @@ class History:
                 if id(c) in seen_cells:
                     self.viol("%s: cell %r of vector #%d is the same array object as cell %r of vector #%d" % ((when, idx, s) + seen_cells[id(c)][::-1]))
                 seen_cells[id(c)] = (s, idx)
-        for s, (v, m) in enumerate(self.live):
-            p = vec_problem(v, m)
-            if p:
-                self.viol("%s: vector #%d: %s" % (when, s, p))
 
     # -- creation ---------------------------------------------------------------------------------
     def create(self, spec):
@@ -435,6 +442,10 @@ class History:
         index (an integer i becomes slice(i, i+1)); one_multi: every OTHER dimension is an integer"""
         nd = m.ndim
         md = step.get("multi", 0) % nd
+        if one_multi:
+            wide = [d for d in range(nd) if m.shape[d] >= 2]
+            if wide:
+                md = wide[step.get("multi", 0) % len(wide)]
         mes, ses = [], []
         for d in range(nd - min(drop, nd - 1)):
             e = step["exprs"][d]
@@ -445,6 +456,10 @@ class History:
                 me, se = ("s", (i, i + 1, None)), slice(i, i + 1)
             else:
                 me, se = resolve_expr(e, m.shape[d], assign)
+            if one_multi and d == md and m.shape[d] >= 2 and len(index_set(me, m.shape[d])) < 2:
+                i = index_set(me, m.shape[d])[0]
+                lo = i if i + 1 < m.shape[d] else i - 1
+                me, se = ("s", (lo, lo + 2, None)), slice(lo, lo + 2)
             mes.append(me)
             ses.append(se)
         return mes, ses
@@ -746,5 +761,36 @@ def _run(ctx, case, h):
     ctx.record(case, nontrivial, classes)
 
 
+def _minimise(ctx, viol):
+    """deterministic post-pass on the case Hypothesis settled on: drop steps (last to first, repeated)
+    while the shortened history still violates the property.  Uses a private Ctx so nothing is counted."""
+    case = viol.case
+    if not isinstance(case, dict) or "steps" not in case:
+        return viol
+    q = core.Ctx(ctx.prop_id, ctx.tier, ctx.seed, ctx.widx, ctx.nworkers, open_findings=list(ctx.open_findings.values()))
+    try:
+        changed = True
+        while changed:
+            changed = False
+            for i in reversed(range(len(case["steps"]))):
+                if len(case["steps"]) == 1:
+                    break
+                c2 = dict(case, steps=case["steps"][:i] + case["steps"][i + 1:])
+                try:
+                    check(q, c2)
+                except core.Violation as e:
+                    case, viol, changed = c2, core.Violation(e.msg, c2, e.key), True
+    finally:
+        q.cleanup()
+    return viol
+
+
 def search(ctx):
-    core.run_given(ctx, "histories", histories(30 if ctx.thorough else 15), lambda c: check(ctx, c), ctx.n(300, 1500))
+    try:
+        _search(ctx)
+    except core.Violation as v:
+        raise _minimise(ctx, v)
+
+
+def _search(ctx):
+    core.run_given(ctx, "histories", histories(30 if ctx.thorough else 15), lambda c: check(ctx, c), ctx.n(1000, 10000))
